@@ -12,6 +12,7 @@ import dns.rdata
 import dns.rdatatype
 import dns.versioned
 import dns.zone
+import dns.zonefile
 
 from vlib import core
 from vlib.gen import names as GN
@@ -37,7 +38,7 @@ ASSUMPTIONS = [
     "lossless style set excludes right justification of the owner column and non-space chunk separators",
     "content = {owner: {(type, covers): (ttl, set of canonical rdata wire against the origin)}}",
 ]
-REQUIRED = ["mon.style_roundtrip", "mon.file_roundtrip", "mon.respelling", "mon.generate_vs_expansion", "mon.out_of_zone_ignored", "mon.cname_exclusive"]
+REQUIRED = ["mon.cname_conflict_injected", "mon.style_roundtrip", "mon.file_roundtrip", "mon.respelling", "mon.generate_vs_expansion", "mon.out_of_zone_ignored", "mon.cname_exclusive"]
 BUDGET = {"quick": 45.0, "thorough": 480.0}
 
 FACTORIES = [("plain", dns.zone.Zone), ("versioned", dns.versioned.Zone), ("btree", dns.btreezone.Zone)]
@@ -71,14 +72,64 @@ def clean_zone(rng):
     return mz
 
 
+NEUTRAL_TYPES = {47, 50, 25}  # NSEC, NSEC3, KEY: the only data (with their RRSIGs) that may sit next to a CNAME
+
+
+def kind_of(rdtype, covers):
+    """independent of dns.node: 'cname' | 'neutral' | 'regular'"""
+    t = int(covers) if int(rdtype) == 46 else int(rdtype)
+    return "cname" if t == 5 else "neutral" if t in NEUTRAL_TYPES else "regular"
+
+
 def cname_exclusive(ctx, z, case, tag):
     ctx.count("mon.cname_exclusive")
     for name, node in z.nodes.items():
-        kinds = {dns.node.NodeKind.classify_rdataset(r) for r in node.rdatasets}
-        if dns.node.NodeKind.CNAME in kinds and dns.node.NodeKind.REGULAR in kinds:
+        kinds = {kind_of(r.rdtype, r.covers) for r in node.rdatasets}
+        if "cname" in kinds and "regular" in kinds:
             ctx.violation(f"cname-coexists-with-other-data:{tag}", f"{name}", case)
             return False
     return True
+
+
+CONFLICT_TYPES = [("A", "10.0.0.1"), ("AAAA", "2001:db8::1"), ("TXT", '"x"'), ("NS", "ns.elsewhere."), ("MX", "10 mx.elsewhere."), ("DS", "1 8 2 " + "ab" * 32),
+                  ("DNSKEY", "256 3 8 AQAB"), ("CDNSKEY", "256 3 8 AQAB"), ("KEY", "256 3 8 AQAB"), ("NSEC", "z.example. A NSEC"), ("NSEC3", "1 0 0 - 00000000000000000000000000000000 A"),
+                  ("DNAME", "t.elsewhere."), ("SRV", "0 0 1 t.elsewhere."), ("CAA", '0 issue "x"'), ("SVCB", "1 . alpn=h2"), ("HINFO", '"a" "b"'), ("LOC", "1 N 1 E 1m"), ("TYPE65280", "\\# 1 00"),
+                  ("RRSIG", "A 8 2 300 20300101000000 20200101000000 1 example. q83v"), ("RRSIG", "DNSKEY 8 2 300 20300101000000 20200101000000 1 example. q83v"),
+                  ("RRSIG", "NSEC 8 2 300 20300101000000 20200101000000 1 example. q83v"), ("RRSIG", "CNAME 8 2 300 20300101000000 20200101000000 1 example. q83v")]
+
+
+def check_cname_conflicts(ctx, rng):
+    """a CNAME (or RRSIG(CNAME)) and one other record set at the same owner, in either order, for a catalogue of types: the file
+    is refused or what is loaded has no CNAME next to ordinary data; the neutral types must load next to it"""
+    ctx.count("evaluations")
+    zname, factory = FACTORIES[rng.randrange(3)]
+    relativize = rng.random() < 0.5
+    t, text = rng.choice(CONFLICT_TYPES)
+    cn = rng.choice(("CNAME target.elsewhere.", "RRSIG CNAME 8 2 300 20300101000000 20200101000000 1 example. q83v"))
+    lines = [f"alias 300 IN {cn}", f"alias 300 IN {t} {text}"]
+    if rng.random() < 0.5:
+        lines.reverse()
+    zt = "$ORIGIN example.\n@ 300 IN SOA ns h 1 2 3 4 5\n@ 300 IN NS ns\n" + "\n".join(lines) + "\n"
+    case = {"kind": "cname-conflict", "zone": zname, "relativize": relativize, "text": zt}
+    rd = dns.rdata.from_text("IN", t, text, origin=dns.name.from_text("example."))
+    other = kind_of(rd.rdtype, rd.covers())
+    ctx.count("mon.cname_conflict_injected")
+    ctx.seen(("cname-conflict", t if t != "RRSIG" else text.split()[0], cn.split()[0], zname, lines[0].startswith("alias 300 IN " + cn[:5])))
+    try:
+        z = dns.zone.from_text(zt, origin="example.", relativize=relativize, zone_factory=factory)
+    except dns.zonefile.CNAMEAndOtherData:
+        if other != "regular":
+            ctx.violation(f"neutral-or-cname-like-type-refused-next-to-cname:{t}", "", case)
+        return
+    except Exception as e:
+        ctx.violation(f"cname-conflict-file-raised:{type(e).__name__}", repr(e), case)
+        return
+    node = z.get_node("alias")
+    kinds = {kind_of(r.rdtype, r.covers) for r in node.rdatasets} if node is not None else set()
+    if "cname" in kinds and "regular" in kinds:
+        ctx.violation(f"cname-coexists-with-other-data:injected:{t if t != 'RRSIG' else 'RRSIG-' + text.split()[0]}", f"{zname} relativize={relativize}", case)
+    elif other == "neutral" and not ("cname" in kinds and "neutral" in kinds):
+        ctx.violation(f"neutral-type-did-not-survive-next-to-cname:{t}", f"{kinds}", case)
 
 
 def gen_style(rng, z, ttls):
@@ -336,6 +387,8 @@ def generate_case(rng):
         rhs, rf = "target${1,3}.example.", lambda i: f"target{fmt_index(i + 1, 'd', 3)}.example."
     else:
         rhs, rf = "p$.other.", lambda i: f"p{i}.other."
+    if rt in ("CNAME", "PTR") and rng.random() < 0.4:
+        rhs, rf = "peer$", lambda i: f"peer{i}"  # a relative target: resolved against the $ORIGIN in force, relativized to the zone
     if rng.random() < 0.35:
         # the iterator mentioned more than once on a side: every mention is substituted
         if rt in ("CNAME", "PTR"):
@@ -405,6 +458,8 @@ def check_respellings(ctx, rng, mz):
         ctx.count("mon.generate_vs_expansion")
         gen, exp = generate_case(rng)
         head = f"$ORIGIN {RN.to_text(mz.origin)}\n$TTL 777\n@ IN SOA ns hostmaster 1 2 3 4 5\n@ IN NS ns\n"
+        if rng.random() < 0.4 and RN.fits((b"host0000000", b"lab") + tuple(mz.origin)):
+            head += f"$ORIGIN lab.{RN.to_text(mz.origin)}\n"  # a mid-file $ORIGIN strictly below the zone origin
         t1 = head + gen + "\n"
         t2 = head + "".join(f"{o} {ttl if ttl is not None else ''} IN {rt} {rd}\n" for o, ttl, rt, rd in exp)
         case = {"kind": "generate", "generate": gen, "expansion": t2[-1500:]}
@@ -427,6 +482,8 @@ def run(spec, ctx):
         mz = clean_zone(rng)
         check_styles(ctx, rng, mz, spec["styles"])
         check_respellings(ctx, rng, mz)
+        for _ in range(6):
+            check_cname_conflicts(ctx, rng)
         if i < 1:
             ctx.sample({"zone": GZ.mz_to_text(mz)[:600]})
 
